@@ -41,6 +41,182 @@ pub fn vx_len_as_u32(n: usize) -> (r: u32)
 
 //@extract file=src/vm/mod.rs path="struct Config" kind=type
 //@end
+// ---- the configuration builders (C03: the limit a caller asks for is the limit that is set, and no other is disturbed) ----
+// R-MUTSELF (desugaring, the installed Verus does not take a `mut self` parameter): `fn f(mut self, v) -> Self { self.FIELD = v; self }`
+// becomes `fn f(self, v) -> Self { let mut vx_self = self; vx_self.FIELD = v; vx_self }` — every assignment `self.F = E;` is carried over
+// with its field and expression (wildcards, count=any), so a setter writing another field, a second field or another value reaches the verifier.
+//@extract file=src/vm/mod.rs path="impl Config" kind=header
+//@end
+//@extract file=src/vm/mod.rs path="impl Config|fn with_max_forks_per_fork_target" props=C03,C01 id=Config::with_max_forks_per_fork_target
+//@ret r
+//@rw R-MUTSELF
+//@old
+mut self,
+//@new
+self,
+//@rw R-MUTSELF count=any
+//@old
+self.$1 = $2;
+//@new
+vx_self.$1 = $2;
+//@rw R-MUTSELF
+//@old
+;
+        self
+    }
+//@new
+;
+        vx_self
+    }
+//@proof entry
+        let mut vx_self = self;   // R-MUTSELF, first half
+//@spec
+        ensures
+            r.maximum_forks_per_fork_target == value,                                          //@ob C03.vm_state.config.with_max_forks_per_fork_target.sets_the_requested_limit
+            r.maximum_iterations_per_opcode == self.maximum_iterations_per_opcode && r.gas_limit == self.gas_limit && r.value_size_limit == self.value_size_limit && r.single_memory_operation_size_limit == self.single_memory_operation_size_limit && r.permissive_errors == self.permissive_errors,      //@ob C03.vm_state.config.with_max_forks_per_fork_target.disturbs_no_other_setting
+//@end
+//@extract file=src/vm/mod.rs path="impl Config|fn with_max_iterations_per_opcode" props=C03,C01 id=Config::with_max_iterations_per_opcode
+//@ret r
+//@rw R-MUTSELF
+//@old
+mut self,
+//@new
+self,
+//@rw R-MUTSELF count=any
+//@old
+self.$1 = $2;
+//@new
+vx_self.$1 = $2;
+//@rw R-MUTSELF
+//@old
+;
+        self
+    }
+//@new
+;
+        vx_self
+    }
+//@proof entry
+        let mut vx_self = self;   // R-MUTSELF, first half
+//@spec
+        ensures
+            r.maximum_iterations_per_opcode == value,                                          //@ob C03.vm_state.config.with_max_iterations_per_opcode.sets_the_requested_limit
+            r.maximum_forks_per_fork_target == self.maximum_forks_per_fork_target && r.gas_limit == self.gas_limit && r.value_size_limit == self.value_size_limit && r.single_memory_operation_size_limit == self.single_memory_operation_size_limit && r.permissive_errors == self.permissive_errors,      //@ob C03.vm_state.config.with_max_iterations_per_opcode.disturbs_no_other_setting
+//@end
+//@extract file=src/vm/mod.rs path="impl Config|fn with_gas_limit" props=C03,C01 id=Config::with_gas_limit
+//@ret r
+//@rw R-MUTSELF
+//@old
+mut self,
+//@new
+self,
+//@rw R-MUTSELF count=any
+//@old
+self.$1 = $2;
+//@new
+vx_self.$1 = $2;
+//@rw R-MUTSELF
+//@old
+;
+        self
+    }
+//@new
+;
+        vx_self
+    }
+//@proof entry
+        let mut vx_self = self;   // R-MUTSELF, first half
+//@spec
+        ensures
+            r.gas_limit == value,                                          //@ob C03.vm_state.config.with_gas_limit.sets_the_requested_limit
+            r.maximum_forks_per_fork_target == self.maximum_forks_per_fork_target && r.maximum_iterations_per_opcode == self.maximum_iterations_per_opcode && r.value_size_limit == self.value_size_limit && r.single_memory_operation_size_limit == self.single_memory_operation_size_limit && r.permissive_errors == self.permissive_errors,      //@ob C03.vm_state.config.with_gas_limit.disturbs_no_other_setting
+//@end
+//@extract file=src/vm/mod.rs path="impl Config|fn with_value_size_limit" props=C03,C01 id=Config::with_value_size_limit
+//@ret r
+//@rw R-MUTSELF
+//@old
+mut self,
+//@new
+self,
+//@rw R-MUTSELF count=any
+//@old
+self.$1 = $2;
+//@new
+vx_self.$1 = $2;
+//@rw R-MUTSELF
+//@old
+;
+        self
+    }
+//@new
+;
+        vx_self
+    }
+//@proof entry
+        let mut vx_self = self;   // R-MUTSELF, first half
+//@spec
+        ensures
+            r.value_size_limit == value,                                          //@ob C03.vm_state.config.with_value_size_limit.sets_the_requested_limit
+            r.maximum_forks_per_fork_target == self.maximum_forks_per_fork_target && r.maximum_iterations_per_opcode == self.maximum_iterations_per_opcode && r.gas_limit == self.gas_limit && r.single_memory_operation_size_limit == self.single_memory_operation_size_limit && r.permissive_errors == self.permissive_errors,      //@ob C03.vm_state.config.with_value_size_limit.disturbs_no_other_setting
+//@end
+//@extract file=src/vm/mod.rs path="impl Config|fn with_memory_max_bytes" props=C03,C01 id=Config::with_memory_max_bytes
+//@ret r
+//@rw R-MUTSELF
+//@old
+mut self,
+//@new
+self,
+//@rw R-MUTSELF count=any
+//@old
+self.$1 = $2;
+//@new
+vx_self.$1 = $2;
+//@rw R-MUTSELF
+//@old
+;
+        self
+    }
+//@new
+;
+        vx_self
+    }
+//@proof entry
+        let mut vx_self = self;   // R-MUTSELF, first half
+//@spec
+        ensures
+            r.single_memory_operation_size_limit == value,                                          //@ob C03.vm_state.config.with_memory_max_bytes.sets_the_requested_limit
+            r.maximum_forks_per_fork_target == self.maximum_forks_per_fork_target && r.maximum_iterations_per_opcode == self.maximum_iterations_per_opcode && r.gas_limit == self.gas_limit && r.value_size_limit == self.value_size_limit && r.permissive_errors == self.permissive_errors,      //@ob C03.vm_state.config.with_memory_max_bytes.disturbs_no_other_setting
+//@end
+//@extract file=src/vm/mod.rs path="impl Config|fn with_permissive_errors" props=C03,C01 id=Config::with_permissive_errors
+//@ret r
+//@rw R-MUTSELF
+//@old
+mut self,
+//@new
+self,
+//@rw R-MUTSELF count=any
+//@old
+self.$1 = $2;
+//@new
+vx_self.$1 = $2;
+//@rw R-MUTSELF
+//@old
+;
+        self
+    }
+//@new
+;
+        vx_self
+    }
+//@proof entry
+        let mut vx_self = self;   // R-MUTSELF, first half
+//@spec
+        ensures
+            r.permissive_errors == value,                                          //@ob C03.vm_state.config.with_permissive_errors.sets_the_requested_limit
+            r.maximum_forks_per_fork_target == self.maximum_forks_per_fork_target && r.maximum_iterations_per_opcode == self.maximum_iterations_per_opcode && r.gas_limit == self.gas_limit && r.value_size_limit == self.value_size_limit && r.single_memory_operation_size_limit == self.single_memory_operation_size_limit,      //@ob C03.vm_state.config.with_permissive_errors.disturbs_no_other_setting
+//@end
+}
+
 // Config::default() is available to the code under contract but NOTHING is promised about its value (so that code which falls
 // back to default limits instead of the configured ones reaches the contracts and fails them)
 impl Default for Config {
